@@ -139,7 +139,11 @@ func loadKnown() []knownFinding {
 	var kf struct {
 		Findings []knownFinding `json:"findings"`
 	}
-	b, err := os.ReadFile(filepath.Join(verifDir, "known_findings.json"))
+	path := filepath.Join(verifDir, "known_findings.json")
+	if alt := os.Getenv("SIMCHECK_KNOWN_FILE"); alt != "" { // development only: look at a finding's runs with the entry removed
+		path = alt
+	}
+	b, err := os.ReadFile(path)
 	if err != nil {
 		return nil
 	}
